@@ -1,9 +1,121 @@
 import ModVerif.Drv.Util
+import ModVerif.Spec.EditSpec
 namespace ModVerif.Drv.Edit
-open ModVerif ModVerif.Drv
+open ModVerif ModVerif.Drv ModVerif.EditSpec
 
-/-- stub: no ops modelled yet -/
+/-! Line protocol of the edit subsystem.  No logic: decode, call the spec / model, encode. -/
+
+def scalar (pfx : String) (t : String) : Option (Option Bytes) :=
+  if t.startsWith pfx then
+    let v := (t.drop pfx.length).toString
+    if v == "~" then some none else (hx v).map some
+  else none
+
+def fields (s : String) : Option (List Bytes) := (s.splitOn ":").mapM hx
+
+def listOf {α : Type} (pfx : String) (dec : String → Option α) (t : String) : Option (List α) :=
+  if t.startsWith pfx then
+    let v := (t.drop pfx.length).toString
+    if v == "_" then some [] else (v.splitOn ",").mapM dec
+  else none
+
+def decPair (s : String) : Option (Bytes × Bytes) :=
+  match s.splitOn ":" with
+  | [a, b] => do pure (← hx a, ← hx b)
+  | _ => none
+
+def decReq (s : String) : Option Req :=
+  match s.splitOn ":" with
+  | [a, b, i] => do pure ⟨← hx a, ← hx b, i == "1"⟩
+  | _ => none
+
+def decRepl (s : String) : Option Repl :=
+  match s.splitOn ":" with
+  | [a, b, c, d] => do pure ⟨← hx a, ← hx b, ← hx c, ← hx d⟩
+  | _ => none
+
+def decRetr (s : String) : Option Retr :=
+  match s.splitOn ":" with
+  | [a, b, c] => do pure ⟨← hx a, ← hx b, ← hx c⟩
+  | _ => none
+
+def decAbs : List String → Option AbsFile
+  | [m, g, t, d, r, x, p, c, l, u] => do
+    pure { module := ← scalar "M=" m, go := ← scalar "G=" g, toolchain := ← scalar "T=" t,
+           godebug := ← listOf "D=" decPair d, require := ← listOf "R=" decReq r,
+           exclude := ← listOf "X=" decPair x, replace := ← listOf "P=" decRepl p,
+           retract := ← listOf "C=" decRetr c, tool := ← listOf "L=" hx l, use := ← listOf "U=" hx u }
+  | _ => none
+
+def encList {α : Type} (enc : α → String) (l : List α) : String :=
+  if l.isEmpty then "_" else ",".intercalate (l.map enc)
+
+def encScalar : Option Bytes → String
+  | none => "~"
+  | some b => xh b
+
+def encAbs (f : AbsFile) : String :=
+  " ".intercalate [
+    "M=" ++ encScalar f.module, "G=" ++ encScalar f.go, "T=" ++ encScalar f.toolchain,
+    "D=" ++ encList (fun e => xh e.1 ++ ":" ++ xh e.2) f.godebug,
+    "R=" ++ encList (fun r => xh r.path ++ ":" ++ xh r.vers ++ ":" ++ (if r.indirect then "1" else "0")) f.require,
+    "X=" ++ encList (fun e => xh e.1 ++ ":" ++ xh e.2) f.exclude,
+    "P=" ++ encList (fun r => xh r.oldPath ++ ":" ++ xh r.oldVers ++ ":" ++ xh r.newPath ++ ":" ++ xh r.newVers) f.replace,
+    "C=" ++ encList (fun r => xh r.lo ++ ":" ++ xh r.hi ++ ":" ++ xh r.rationale) f.retract,
+    "L=" ++ encList xh f.tool, "U=" ++ encList xh f.use]
+
+def decReqList (s : String) : Option (List Req) := if s == "_" then some [] else (s.splitOn ",").mapM decReq
+def decUseList (s : String) : Option (List (Bytes × Bytes)) := if s == "_" then some [] else (s.splitOn ",").mapM decPair
+
+def decOp : List String → Option Op
+  | ["module", a] => do pure (.addModule (← hx a))
+  | ["go", a] => do pure (.addGo (← hx a))
+  | ["dropgo"] => some .dropGo
+  | ["toolchain", a] => do pure (.addToolchain (← hx a))
+  | ["droptoolchain"] => some .dropToolchain
+  | ["godebug", a, b] => do pure (.addGodebug (← hx a) (← hx b))
+  | ["dropgodebug", a] => do pure (.dropGodebug (← hx a))
+  | ["require", a, b] => do pure (.addRequire (← hx a) (← hx b))
+  | ["newrequire", a, b, i] => do pure (.addNewRequire (← hx a) (← hx b) ((← hx i) == [49]))
+  | ["droprequire", a] => do pure (.dropRequire (← hx a))
+  | ["setrequire", l] => do pure (.setRequire (← decReqList l))
+  | ["setrequiresep", l] => do pure (.setRequireSeparateIndirect (← decReqList l))
+  | ["exclude", a, b] => do pure (.addExclude (← hx a) (← hx b))
+  | ["dropexclude", a, b] => do pure (.dropExclude (← hx a) (← hx b))
+  | ["replace", a, b, c, d] => do pure (.addReplace (← hx a) (← hx b) (← hx c) (← hx d))
+  | ["dropreplace", a, b] => do pure (.dropReplace (← hx a) (← hx b))
+  | ["retract", a, b, c] => do pure (.addRetract (← hx a) (← hx b) (← hx c))
+  | ["dropretract", a, b] => do pure (.dropRetract (← hx a) (← hx b))
+  | ["tool", a] => do pure (.addTool (← hx a))
+  | ["droptool", a] => do pure (.dropTool (← hx a))
+  | ["sortblocks"] => some .sortBlocks
+  | ["cleanup"] => some .cleanup
+  | ["use", a, b] => do pure (.addUse (← hx a) (← hx b))
+  | ["newuse", a, b] => do pure (.addNewUse (← hx a) (← hx b))
+  | ["dropuse", a] => do pure (.dropUse (← hx a))
+  | ["setuse", l] => do pure (.setUse (← decUseList l))
+  | _ => none
+
+/-- split the token list at "|" -/
+def splitBars : List String → List String → List (List String)
+  | [], cur => [cur.reverse]
+  | t :: ts, cur => if t == "|" then cur.reverse :: splitBars ts [] else splitBars ts (t :: cur)
+
+def decOps (toks : List String) : Option (List Op) :=
+  if toks.isEmpty then some [] else
+  match toks with
+  | "|" :: rest => (splitBars rest []).mapM decOp
+  | _ => none
+
+def encRes (l : List Bool) : String :=
+  if l.isEmpty then "_" else ",".intercalate (l.map fun b => if b then "ok" else "err")
+
 def handle : Handler
+  | "absstep", kind :: rest =>
+    if kind != "mod" && kind != "work" then none else do
+    let f ← decAbs (rest.take 10)
+    let ops ← decOps (rest.drop 10)
+    pure ("ops=" ++ encRes (runOk stdValidity f ops) ++ " abs: " ++ encAbs (run stdValidity f ops))
   | _, _ => none
 
 end ModVerif.Drv.Edit
